@@ -46,4 +46,13 @@ run R11/patch_3.diff C09
 run R12/patch_1.diff C02
 run R12/patch_2.diff C10 C02
 run R12/patch_3.diff C09
+run R13/patch_1.diff C08
+run R13/patch_2.diff C08
+run R13/patch_3.diff C08
+run R14/patch_1.diff C13 C14
+run R14/patch_2.diff C13
+run R14/patch_3.diff C14 C13
+run R15/patch_1.diff C14
+run R15/patch_2.diff C03 C10
+run R15/patch_3.diff C20 C18 C11
 git -C /repo worktree remove --force "$WT"
